@@ -61,4 +61,10 @@ Definition p_in (a l : pyv) : pyv :=
 Definition p_len (l : pyv) : pyv := match l with PList xs => PInt (Z.of_nat (length xs)) | _ => PErr end.
 Definition p_max (l : pyv) : pyv := match l with PList (x :: r) => PInt (fold_left Z.max r x) | _ => PErr end.   (* max([]): ValueError *)
 
+(** the loop idiom `for x in xs: if test(x): return False` followed by `return True` *)
+Fixpoint p_for_return_false_if (test : pyv -> pyv) (xs : list pyv) : pyv :=
+  match xs with [] => PBool true | x :: r => p_if (test x) (fun _ => PBool false) (fun _ => p_for_return_false_if test r) end.
+(** d[k] on the values modelled here: there is no dictionary among them, so reaching a subscript is an error value *)
+Definition p_getitem (d k : pyv) : pyv := PErr.
+
 Definition of_oz (o : option Z) : pyv := match o with Some z => PInt z | None => PNone end.
